@@ -101,6 +101,11 @@ def check_C01(tier):
     conf = extract_conf(env)
     calls = spec_to_code(rep, env, conf, 'MC_C01', 'MC_C01_%s.cfg' % tier, 'family of strings (bases x edits)')
     code_to_spec(rep, env, conf, calls, 'Sid(string) for every state of the family')
+    # code -> spec on inputs the family does not generate: the repository's example Sids and seeded random junk
+    import checks_more as M
+    if not Report.redirect:
+        M.run_driver(rep, env, 'example Sids of the repository and random strings (junk, control characters, prefixes) through Sid()',
+                     M.driver_calls(env, tier, ops=('sid',)), 'drv01')
     rep.exhaustive = True
     typed = [t for t in rep.cover if t.startswith('sid:') and 'untyped' not in t]
     rep.guard(len(typed) >= 10 or not calls, 'fewer than 10 distinct result types exercised')
